@@ -558,3 +558,10 @@ def run(ctx):
     ctx.step(r01_7, ctx)
     # the tables of common input bytes decide how single-transition nodes spell their byte (R09.1, shared with C09 / C10)
     ctx.step(formatrules.constants, ctx)
+    # "opening the produced bytes": the constructor accepts every well-formed file - its version / length gates are exactly the
+    # documented ones (R10.1 / R10.4, decided on the same abstract execution as C10)
+    import rules.C10 as C10
+    if lib.fn(C10.NEW) is not None:
+        f10, pv10, L10, recs10 = ctx.step(C10.collect, ctx, lib)
+        V10, Ln10, Rt10, meta10 = ctx.step(C10.atoms, ctx, 'R10.1', f10, pv10, L10, recs10)
+        ctx.step(C10.r10_1_4, ctx, f10, pv10, L10, recs10, V10, Ln10, Rt10)
